@@ -119,8 +119,8 @@ cmd_fit(const char *topcmd, const ESL_SUBCMD *sub, int argc, char **argv)
 {
   ESL_GETOPTS    *go      = esl_subcmd_CreateDefaultApp(topcmd, sub, fit_options, argc, argv);
   ESL_RANDOMNESS *rng     = esl_randomness_Create( esl_opt_GetInteger(go, "-s"));
-  int             Q       = strtol(esl_opt_GetArg(go, 1), NULL, 10);   // number of mixture components
-  int             K       = strtol(esl_opt_GetArg(go, 2), NULL, 10);   // size of probability/parameter vectors - length of count vectors
+  long            Q       = strtol(esl_opt_GetArg(go, 1), NULL, 10);   // number of mixture components
+  long            K       = strtol(esl_opt_GetArg(go, 2), NULL, 10);   // size of probability/parameter vectors - length of count vectors
   char           *ctfile  = esl_opt_GetArg(go, 3);                     // count file to input
   char           *outfile = esl_opt_GetArg(go, 4);                     // mixture Dirichlet file output
   ESL_FILEPARSER *efp     = NULL;                                      // open fileparser for reading                                                
@@ -135,7 +135,8 @@ cmd_fit(const char *topcmd, const ESL_SUBCMD *sub, int argc, char **argv)
   double          nll;
   int             status;
 
-  if (Q < 1 || K < 1) esl_fatal("<Q> and <K> must be positive integers");
+  if (Q < 1 || Q > eslMIXDCHLET_MAXQ) esl_fatal("<Q> must be an integer in the range 1..%d", eslMIXDCHLET_MAXQ);
+  if (K < 1 || K > eslMIXDCHLET_MAXK) esl_fatal("<K> must be an integer in the range 1..%d", eslMIXDCHLET_MAXK);
   dchl = esl_mixdchlet_Create(Q,K);
   ct   = esl_mat_DCreate(Nalloc, K);
 
@@ -151,10 +152,12 @@ cmd_fit(const char *topcmd, const ESL_SUBCMD *sub, int argc, char **argv)
       a = 0; // counter over fields on line, ct[N] [a=0..K-1].
       while ((status = esl_fileparser_GetTokenOnLine(efp, &tok, &toklen)) == eslOK)
        {
-	 if (a == K)                esl_fatal("parse failed, %s:%d: > K=%d fields on line", ctfile, efp->linenumber, K);
+	 if (a == K)                esl_fatal("parse failed, %s:%d: > K=%ld fields on line", ctfile, efp->linenumber, K);
 	 if (! esl_str_IsReal(tok)) esl_fatal("parse failed, %s:%d: field %d (%s) not a real number", ctfile, efp->linenumber, a+1, tok);
 	 ct[N][a++] = atof(tok);
+	 if (! (ct[N][a-1] >= 0. && ct[N][a-1] < eslINFINITY)) esl_fatal("parse failed, %s:%d: field %d (%s) not a finite count >= 0", ctfile, efp->linenumber, a, tok);
        }
+      if (a < K) esl_fatal("parse failed, %s:%d: < K=%ld fields on line", ctfile, efp->linenumber, K);
       N++;
     }
 
@@ -223,7 +226,9 @@ cmd_score(const char *topcmd, const ESL_SUBCMD *sub, int argc, char **argv)
 	 if (a == dchl->K)          esl_fatal("parse failed, %s:%d: > K=%d fields on line", ctfile, efp->linenumber, dchl->K);
 	 if (! esl_str_IsReal(tok)) esl_fatal("parse failed, %s:%d: field %d (%s) not a real number", ctfile, efp->linenumber, a+1, tok);
 	 ct[a++] = atof(tok);
+	 if (! (ct[a-1] >= 0. && ct[a-1] < eslINFINITY)) esl_fatal("parse failed, %s:%d: field %d (%s) not a finite count >= 0", ctfile, efp->linenumber, a, tok);
        }
+      if (a < dchl->K) esl_fatal("parse failed, %s:%d: < K=%d fields on line", ctfile, efp->linenumber, dchl->K);
 
       nll += esl_mixdchlet_logp_c(dchl, ct);
     }
@@ -308,8 +313,8 @@ static ESL_OPTIONS sample_options[] = {
   /* name           type      default  env  range toggles reqs incomp  help                                   docgroup*/
   { "-h",    eslARG_NONE,   FALSE,  NULL, NULL,  NULL,  NULL, NULL, "show brief help on version and usage",         0 },
   { "-s",    eslARG_INT,      "0",  NULL, NULL,  NULL,  NULL, NULL, "set random number seed",                       0 },
-  { "-K",    eslARG_INT,     "20",  NULL, "n>0",  NULL,  NULL, NULL, "alphabet size",                                0 },
-  { "-Q",    eslARG_INT,      "9",  NULL, "n>0",  NULL,  NULL, NULL, "number of mixture components",                 0 },
+  { "-K",    eslARG_INT,     "20",  NULL, "0<n<=100000", NULL, NULL, NULL, "alphabet size",                           0 },  // upper bound = eslMIXDCHLET_MAXK
+  { "-Q",    eslARG_INT,      "9",  NULL, "0<n<=1000",   NULL, NULL, NULL, "number of mixture components",            0 },  // upper bound = eslMIXDCHLET_MAXQ
   {  0, 0, 0, 0, 0, 0, 0, 0, 0, 0 },
 };
 
